@@ -62,12 +62,15 @@ def gen_spec(rng, cls=None, force_nan=None):
     if rng.random() < 0.7:
         kw["nanstop"] = bool(rng.random() < 0.75)
     if rng.random() < 0.4:
-        kw["itstat_options"] = ["display", "display-overwrite", "nodisplay", "custom", "disp", "disp"][int(rng.integers(6))]
+        kw["itstat_options"] = ["display", "display-overwrite", "nodisplay", "custom", "custom-same", "disp", "disp"][int(rng.integers(7))]
         if kw["itstat_options"] == "disp":
             kw["itstat_options"] = f"disp:{int(rng.integers(1, 5))}:{int(rng.integers(2))}:{int(rng.integers(2))}"
     if rng.random() < 0.3:
         kw["maxiter"] = int(rng.integers(0, 5))
     spec["kwargs"] = kw
+    if "itstat_options" in kw:
+        # how many optimisers were built from the SAME options object before the one under test
+        spec["reuse"] = int([0, 0, 1, 2][int(rng.integers(4))])
     return spec
 
 
@@ -130,7 +133,7 @@ def solve_oracle(spec, ops, step_ticks, cb_ticks, obs, twin, min0, ctl=None):
     j = 0  # callbacks so far
     nrows = 0
     solve_time = 0  # ticks spent inside solve() but outside callbacks
-    custom = kw.get("itstat_options") == "custom"
+    custom = kw.get("itstat_options") in ("custom", "custom-same")
     names = None
 
     def nonfinite(kk):
@@ -173,8 +176,9 @@ def solve_oracle(spec, ops, step_ticks, cb_ticks, obs, twin, min0, ctl=None):
                 if row[1] != t:
                     return {**where, "fails": f"record {q} reports time {row[1]}, time inside solve() excluding callbacks is {t}"}
                 if custom:
-                    if row[2] != nrows + q:
-                        return {**where, "fails": f"custom statistics function saw {row[2]} earlier records, expected {nrows + q}"}
+                    if row[2] != nrows + q or list(row[3:]) != [-float(c) for c in range(3, len(row))]:
+                        return {**where, "fails": f"record {q} = {row} is not what the caller's statistics function returns "
+                                                   f"(Iter, Time, {nrows + q} earlier records, -3, -4, ...)"}
                 else:
                     acc = twin["acc"][k + q]
                     got = row[2:]
